@@ -41,7 +41,7 @@ func genC19(t *rapid.T) C19Case {
 			c.Steps = append(c.Steps, C19Step{PruneSel: &sel})
 		}
 		st := sub[i]
-		st.Validated = false
+		st.Malleated = false
 		c.Steps = append(c.Steps, C19Step{Submit: &st})
 	}
 	return c
@@ -198,7 +198,11 @@ func runC19(c C19Case, cs *kit.CaseStats) (err error) {
 			}
 			continue
 		}
-		_, blocks, _, _ := tr.ResolveBatch(*st.Submit, func(types.BlockID) bool { return false })
+		_, blocks, states, validated := tr.ResolveBatch(*st.Submit, func(id types.BlockID) bool {
+			_, ok1 := node.CM.State(id)
+			_, ok2 := twin.CM.State(id)
+			return ok1 && ok2
+		})
 		if len(blocks) == 0 {
 			continue
 		}
@@ -217,8 +221,24 @@ func runC19(c C19Case, cs *kit.CaseStats) (err error) {
 		mri := node.CM.MinReorgIndex()
 		pre := takeSnapshot(node, maxH)
 		twinOld := twin.TipNode()
-		terr := twin.Submit(blocks)
-		nerr := node.Submit(blocks)
+		var terr, nerr error
+		if validated {
+			// the pre-validated path the syncer uses above the require height
+			cs.Class("call=AddValidatedV2Blocks")
+			for _, b := range blocks {
+				twin.Submitted[b.ID()], node.Submitted[b.ID()] = true, true
+			}
+			terr = twin.CM.AddValidatedV2Blocks(blocks, states)
+			nerr = node.CM.AddValidatedV2Blocks(blocks, states)
+			for _, n := range []*kit.Node{twin, node} {
+				if h := n.CM.Tip().Height; h > n.MaxHeight {
+					n.MaxHeight = h
+				}
+			}
+		} else {
+			terr = twin.Submit(blocks)
+			nerr = node.Submit(blocks)
+		}
 		where := fmt.Sprintf("step %d (batch %v, node err=%v, twin err=%v, min reorg index %v, pruned below %d)", si, st.Submit.Batch, nerr, terr, mri, prunedBelow)
 		if err := node.Audit(); err != nil {
 			return fmt.Errorf("%s: %w", where, err)
